@@ -1068,6 +1068,10 @@ class Family:
             left = ("lit", self.b.integer(), False) if op not in ("KW_IN", "KW_NOT_IN") else ("lit", self.b.string(), False)
             yield self.prog(("if", [self.cmp(op, left, right)], self.groups(1), ("else", self.groups(1))), True, ("a",),
                             f"operator {op} literal-first")
+        # membership in a scalar literal (substring test on a string; the grammar allows any term on the right)
+        for op in ("KW_IN", "KW_NOT_IN"):
+            yield self.prog(("if", [self.cmp(op, ("id", self.b.ident("c0")), ("lit", self.b.string(), False))], self.groups(1),
+                             ("else", self.groups(1))), True, ("a",), f"operator {op} with a string on the right")
 
     def term_variants(self):
         b = self.b
